@@ -414,6 +414,7 @@ Proof.
     rewrite N_of_digits_of_N. destruct (N.leb_spec n 18446744073709551615); [reflexivity|lia].
   - unfold num_val, snum_int. cbn [sn_neg sn_int sn_frac sn_exp].
     rewrite N_of_digits_of_N.
+    destruct (N.eqb_spec (Z.to_N (- z)) 0) as [Hz|Hz]; [lia|].
     destruct (Z.leb_spec (Z.of_N (Z.to_N (- z))) 9223372036854775808); [|lia].
     f_equal. f_equal. lia.
   - destruct (flt_okb_spec f H) as [n [E [_ [_ V]]]]. rewrite E. auto.
